@@ -92,7 +92,7 @@ func runC15(c *Ctx) {
 			collectors = append(collectors, named)
 		}
 	}
-	r.Floor("leaf-case", len(collectors), 5, "collectors")
+	r.Floor("leaf-case", len(collectors), 3, "collectors")
 	c15ResultSources(c, p)
 	if len(collectors) < 5 {
 		return
